@@ -1,7 +1,7 @@
 """C06 -- in-place addition on 4/8-byte variables is one atomic add.
 
 Stage A programs (built with the real DSL): {q Q i I x} x {local, array map,
-packet, m?[pointer]} x amount {small constant, 64-bit constant, negative via
+per-CPU array map, packet, m?[pointer]} x amount {small constant, 64-bit constant, negative via
 -=, register, expression over another variable, -= register, -= expression}.
 Contract of the statement (from the property): the compiled statement
 contains exactly one access to the variable, an atomic add of its width, whose
@@ -10,7 +10,7 @@ changes nothing else.  Lemma L-XADD (lean/XaddSum.lean) lifts this to any
 number of concurrent instances and any interleaving.
 """
 FMTS = "qQiIx"
-KINDS = ["local", "map", "packet", "pointer"]
+KINDS = ["local", "map", "percpu", "packet", "pointer"]
 AMOUNTS = ["const5", "const64", "minus7", "register", "expression", "minus_register",
            "minus_expression"]
 BIG = (1 << 40) + 3
@@ -25,7 +25,7 @@ def programs(tier):
             if kind == "pointer" and fmt in "qix":
                 continue          # mq/mi/mx exist too; the unsigned ones suffice for this kind
             for amount in AMOUNTS:
-                if tier == "quick" and kind in ("map", "pointer") and amount in ("const64", "minus7"):
+                if tier == "quick" and kind in ("map", "percpu", "pointer") and amount in ("const64", "minus7"):
                     continue
                 out.append((f"{kind} {fmt} {amount}", kind, fmt, amount))
     return out
@@ -36,7 +36,7 @@ def build(kind, fmt, amount):
     from ebpfcat.arraymap import ArrayMap
     from ebpfcat.ebpf import EBPF, LocalVar
     from ebpfcat.xdp import XDP, PacketVar, XDPExitCode
-    saved = am.create_map, am.mmap
+    saved = am.create_map, am.mmap, am.possible_cpus
     am.create_map = lambda *a, **k: 77
     am.mmap = lambda fd, size: bytearray(size)
     base = XDP if kind == "packet" else EBPF
@@ -45,6 +45,14 @@ def build(kind, fmt, amount):
         ns["var"] = LocalVar(fmt)
     elif kind == "map":
         ns["amap"] = ArrayMap()
+        ns["var"] = ns["amap"].globalVar(fmt)
+        ns["other"] = ns["amap"].globalVar("Q")
+    elif kind == "percpu":
+        # each CPU has its own copy, but several instances of the program can
+        # still work on the same copy (a preempted test run, nested invocation)
+        from ebpfcat.arraymap import PerCPUArrayMap
+        am.possible_cpus = lambda: 4
+        ns["amap"] = PerCPUArrayMap()
         ns["var"] = ns["amap"].globalVar(fmt)
         ns["other"] = ns["amap"].globalVar("Q")
     elif kind == "packet":
@@ -94,7 +102,7 @@ def build(kind, fmt, amount):
         info = dict(code=code, src=P.src.relative_addr)
         if kind == "local":
             info["var"] = ("stack", 512 + P.var.relative_addr)
-        elif kind == "map":
+        elif kind in ("map", "percpu"):
             info["var"] = ("map77", prog.__dict__["var"])
             info["map_size"] = P.amap.size
         elif kind == "packet":
@@ -103,7 +111,7 @@ def build(kind, fmt, amount):
             info["var"] = ("stack", 512 + P.slot.relative_addr)
         return info
     finally:
-        am.create_map, am.mmap = saved
+        am.create_map, am.mmap, am.possible_cpus = saved
 
 
 def amount_value(amount, src64, fmt):
